@@ -135,7 +135,7 @@ class Runner:
         # rollout API
         return {
             "scenario": NAME, "cls": cls, "faults": [],
-            "ops": [{"op": rng.choice(["batches", "indices_gather", "sample", "flatten"]), "key": rng.getrandbits(31), "shuffle": rng.random() < 0.8, "axes": rng.randrange(4)} for _ in range(rng.randint(2, 6))],
+            "ops": [{"op": rng.choice(["batches", "indices_gather", "sample", "flatten", "shuffle_probe"]), "key": rng.getrandbits(31), "shuffle": rng.random() < 0.8, "axes": rng.randrange(4)} for _ in range(rng.randint(2, 6))],
         }
 
     def shrink_candidates(self, plan: dict):
@@ -351,6 +351,22 @@ class Runner:
                     if not np.array_equal(np.asarray(tags[0]).round().astype(int), flat_tags[row].round().astype(int)):
                         res.fail("C09", "row_intact", "gather_returned_other_rows", want=flat_tags[row].tolist(), got=np.asarray(tags[0]).tolist())
                         break
+            elif kind == "shuffle_probe":
+                # a keyed epoch shuffles SAMPLES, not just the order of fixed contiguous minibatches: with three keys the
+                # membership of the minibatches equals the sequential partition every time with probability < 1e-15 (N >= 8, >= 2 batches)
+                if N >= 8 and N // B >= 2 and B >= 2:
+                    flat = self._flatten[None](buf)
+                    seq = {frozenset(range(r * B, (r + 1) * B)) for r in range(N // B)}
+                    same = 0
+                    for j in range(3):
+                        idx = np.asarray(self._indices(flat, jr.key(op["key"] + 7919 * j)))
+                        if {frozenset(int(x) for x in row) for row in idx} == seq:
+                            same += 1
+                    tr.ev("shuffle_probe", same=same)
+                    if same == 3:
+                        res.fail("C09", "fresh_shuffle_per_epoch", "minibatch_membership_never_shuffled", N=N, B=B)
+                    else:
+                        res.ok("C09", "fresh_shuffle_per_epoch")
             else:  # sample
                 b = max(1, B)
                 out = self._rsample[ax](buf, jr.key(op["key"]))
